@@ -144,6 +144,12 @@ impl Api {
             ["accum", x, s, k, op] => { fresh!(x); let (s, k, op) = (need!(self.s(s)), need!(num(k)), need!(num(op))); self.h.insert(x.to_string(), H::C(s.accum(k, move |a: &i64, st: &i64| f2(op, *a, *st)))); ok() }
             ["collect", x, s, k, op] => { fresh!(x); let (s, k, op) = (need!(self.s(s)), need!(num(k)), need!(num(op)));
                 self.h.insert(x.to_string(), H::S(s.collect(k, move |a: &i64, st: &i64| (f2(op, *a, *st), f2(op + 1, *a, *st))))); ok() }
+            ["accumlazy", x, s, z, op] => { fresh!(x); let (s, op) = (need!(self.s(s)), need!(num(op)));
+                let z = match self.h.get(*z) { Some(H::Z(z, _)) => z.clone(), _ => return "skip".into() };
+                self.h.insert(x.to_string(), H::C(s.accum_lazy(z, move |a: &i64, st: &i64| f2(op, *a, *st)))); ok() }
+            ["collectlazy", x, s, z, op] => { fresh!(x); let (s, op) = (need!(self.s(s)), need!(num(op)));
+                let z = match self.h.get(*z) { Some(H::Z(z, _)) => z.clone(), _ => return "skip".into() };
+                self.h.insert(x.to_string(), H::S(s.collect_lazy(z, move |a: &i64, st: &i64| (f2(op, *a, *st), f2(op + 1, *a, *st))))); ok() }
             ["defer", x, s] => { fresh!(x); let s = need!(self.s(s)); self.h.insert(x.to_string(), H::S(Operational::defer(&s))); ok() }
             ["split", x, s, n] => { fresh!(x); let (s, n) = (need!(self.s(s)), need!(num(n))); if !(0..=8).contains(&n) { return "skip".into(); }
                 self.h.insert(x.to_string(), H::S(s.map(move |v: &i64| (0..n).map(|j| v.wrapping_add(j)).collect::<Vec<i64>>()).split())); ok() }
